@@ -442,6 +442,14 @@ def _productions(view: FuncInfo, e: ast.expr, depth: int, seen: frozenset, follo
             return productions(view, e.args[0], depth + 1, seen)
         if isinstance(fn, ast.Attribute) and fn.attr in ("copy",) and not e.args:
             return productions(view, fn.value, depth + 1, seen)
+        if isinstance(fn, ast.Name) and fn.id in ("map", "starmap", "filter") and len(e.args) == 2:
+            # one element per element of the mapped collection: the call itself stands for "f(x) for x in xs" (its conditions
+            # are those of the place where it is evaluated; the collection's own events add theirs)
+            inner = [q for q in productions(view, e.args[1], depth + 1, seen) if q.elt is not None]
+            here = Production(e, _loops_around(view, e), conds(view, e), e)
+            if inner:
+                return [Production(e, q.loops, here.conds + [c for c in q.conds if c not in here.conds], q.node, key=q.key) for q in inner]
+            return [here]
         if follow is not None:
             got = _into_helper(view, e, follow, depth)
             if got is not None:
